@@ -97,7 +97,8 @@ example : ((run (init [false, false]) [.register 0, .writeOk 0, .register 1, .te
 
 /-! ### the model's atomic steps are the code's critical sections (regenerated facts) -/
 
-theorem tie_atomic : Gen.atomicTieOk = true := by decide
+theorem tie_atomic : tieItem Gen.atomicTie "atomic:client.Client.send" = true ∧ tieItem Gen.atomicTie "atomic:client.Client.input" = true
+    ∧ tieItem Gen.atomicTie "atomic:client.Client.Close" = true := by decide
 
 /-- the reader's teardown (`terminate` in the model) is ONE critical section of `input`: closing
     the connection, setting `shutdown` and draining the pending table (remove + signal) -/
